@@ -94,7 +94,7 @@ def replay_case(where):
 
 def run_bounded(res):
     q = res.tier == 'quick'
-    jobs = [(res.seed * 8191 + 17 * s + 1, 14 if q else 60) for s in range(48 if q else 160)]
+    jobs = [(res.seed * 8191 + 17 * s + 1, 14 if q else 60) for s in range(48 if q else 128)]
     seen = set()
     stats, notes = {}, {}
     for cnt, fails, keys, samples, st, nts in common.pmap(_job, jobs):
@@ -111,9 +111,10 @@ def run_bounded(res):
             if fid:
                 res.known_hit(fid)
                 continue
-            if kind in seen or text is None:
+            coarse = ':'.join(kind.split(':')[:2])     # e.g. disk-changed-on-error:diff, crash:merge, error-status-missing:store
+            if coarse in seen or text is None:
                 continue
-            seen.add(kind)
+            seen.add(coarse)
             res.violation('%s [%s]' % (text, kind), dict(where, replay_kind='call', module='checks.c20_bounded', function='replay_case', args=[where]))
     res.coverage['requests_by_endpoint_and_class'] = {'%s/%s' % k: v for k, v in sorted(stats.items())}
     if notes:
